@@ -134,7 +134,7 @@ def kind_of(data):
     return ks
 
 
-def check(acc, m: Mol, sz):
+def check(acc, m: Mol, sz, rebuild=False):
     import gbigsmiles
 
     text = m.text(False)
@@ -142,7 +142,7 @@ def check(acc, m: Mol, sz):
     if status != "ok":
         acc.count("parse_dropped")
         return
-    case = {"text": text, "ast": m.to_json(), "sz": sz}
+    case = {"text": text, "ast": m.to_json(), "sz": sz, "rebuild": rebuild}
     status, sag = probe.guarded(lambda: obj.gen_stochastic_atom_graph(expect_schulz_zimm_distribution=sz), seconds=60)
     lists = any(b.transitions for t in m.tokens for b in t.bds)
     sig0 = {"lists": bool(lists)}
@@ -150,6 +150,13 @@ def check(acc, m: Mol, sz):
         acc.case(None, labels=["graph_raised"])
         acc.violation("graph_raises", f"gen_stochastic_atom_graph({sz}) of {text!r} raised {sag!r}", case, {**sig0, "error": type(sag).__name__ if status == "raise" else status}, size=len(text))
         return
+    if rebuild:
+        # building the graph again on the same object must give the same graph
+        st_r, _ = probe.guarded(sag.generate, seconds=60)
+        if st_r != "ok":
+            acc.violation("graph_raises", f"second generate() on the stochastic atom graph of {text!r} raised {_!r}", case, sig0, size=len(text))
+            return
+        acc.label("rebuilt_on_same_object")
     G = sag.graph
     try:
         nodes, exp, off = expected(m)
@@ -233,11 +240,11 @@ def check(acc, m: Mol, sz):
 def run_shard(cfg):
     acc = Acc()
     n = max(1, SIZES[cfg["tier"]] // cfg["nshards"])
-    drive(mol_case(), lambda x: check(acc, x[0], x[1]), n, cfg["seed"])
+    drive(st.tuples(mol_case(), st.sampled_from([False, False, True])), lambda x: check(acc, x[0][0], x[0][1], x[1]), n, cfg["seed"])
     return acc
 
 
 def replay(case, rec):
     acc = Acc()
-    check(acc, Mol.from_json(case["ast"]), case["sz"])
+    check(acc, Mol.from_json(case["ast"]), case["sz"], case.get("rebuild", False))
     return acc
